@@ -37,7 +37,9 @@ PERTS = ("none", "permute", "regroup", "drop_sig", "dup_sig", "subst_sig", "drop
 _REQ = ([f"pert:{p}" for p in PERTS] +
         ["entry:AggregateVerify:basic", "entry:AggregateVerify:aug", "entry:AggregateVerify:pop",
          "entry:FastAggregateVerify", "entry:Aggregate", "want:True", "want:False", "repeated_key", "repeated_msg", "aggregate_verify:all_messages_equal",
-         "zero_sum", "honest_aggregate_is_identity", "aggregate:wrong_size", "aggregate:empty", "aggregate:regroup", "n>=4"])
+         "zero_sum", "honest_aggregate_is_identity", "aggregate:wrong_size", "aggregate:empty", "aggregate:regroup", "n>=4",
+         "n=1:accepted:AggregateVerify:basic", "n=1:accepted:AggregateVerify:aug", "n=1:accepted:AggregateVerify:pop",
+         "n=1:accepted:FastAggregateVerify:pop"])
 _AGG = ["derived:basic", "derived:aug", "derived:pop", "aggregate:n>=7", "aggregate:entry:zero_component:y_re=0", "aggregate:entry:zero_component:y_im=0",
         "aggregate:entry:inverse_of_entry", "aggregate:entry:repeated_entry"]
 REQUIRED_LABELS = {"quick": _REQ + _AGG, "thorough": _REQ + ["n>=16"] + _AGG}
@@ -158,6 +160,8 @@ def o_verify(ctx, case):
         ctx.label("zero_sum")
     if want and agg == B.signature_bytes(None):
         ctx.label("honest_aggregate_is_identity")
+    if n == 1 and want:
+        ctx.label(f"n=1:accepted:{entry}:{suite}")
     if n >= 4:
         ctx.label("n>=4")
     if n >= 16:
@@ -456,6 +460,12 @@ def t_verify(ctx, shard, nshards, n, nmax):
             nn = 3 + k % 3
             ex.append(build((suite, fast, [k, k + 1, 500, k + 3, 1000][:nn], [k, k + 2, 500 + k, k + 5, k + 6][:nn],
                              pert, 100 + k, 7 + k, 0)))
+    # a single signer through the aggregate entry points: must agree with Verify (honest accepted; another message's,
+    # another key's and the key-prefixed message's signature refused)
+    for i, sname in enumerate(sc.SUITES):
+        for pert in ("none", "subst_sig", "swap_keys", "neg_agg"):
+            ex.append(build((sname, False, [3 + i], [4 + i], pert, 50 + i, 9 + i, 0)))
+        ex.append(build((sname, True, [6 + i], [2 + i], "none", 60 + i, 3 + i, 0)))
     # zero-sum FastAggregateVerify with the honest (identity) aggregate
     for sname in sc.SUITES:
         # no signer at all, identity aggregate: the empty product of pairings equals one - must be refused
